@@ -239,6 +239,58 @@ pub fn child_main(progress: bool) -> i32 {
     0
 }
 
+/// Names of the environment variables that the sources of bourse read (`env::var("X")`, `var_os("X")`,
+/// `option_env!("X")`), collected from the working tree the harness was built against: the odd child variants run
+/// with every one of them set, so a run that consults the process environment differs from one that does not.
+fn env_vars_read_by_bourse() -> &'static Vec<String> {
+    static V: std::sync::OnceLock<Vec<String>> = std::sync::OnceLock::new();
+    V.get_or_init(|| {
+        let root = std::env::var("VERIF_REPO").unwrap_or_else(|_| "/repo".to_string());
+        let mut names: Vec<String> = vec![];
+        let mut stack: Vec<std::path::PathBuf> = vec![std::path::Path::new(&root).join("crates"), std::path::Path::new(&root).join("rust")];
+        while let Some(d) = stack.pop() {
+            let Ok(rd) = std::fs::read_dir(&d) else { continue };
+            for e in rd.flatten() {
+                let p = e.path();
+                if p.is_dir() {
+                    if p.file_name().map_or(false, |n| n == "target" || n == "tests" || n == "benches") {
+                        continue;
+                    }
+                    stack.push(p);
+                } else if p.extension().map_or(false, |x| x == "rs") {
+                    let Ok(text) = std::fs::read_to_string(&p) else { continue };
+                    // every string literal that looks like an environment variable name (upper case with an
+                    // underscore: the name may be held in a constant)
+                    if text.contains("env::") || text.contains("std::env") {
+                        for piece in text.split('"').skip(1).step_by(2) {
+                            if piece.len() >= 4 && piece.len() < 80 && piece.contains('_') && piece.chars().all(|c| c.is_ascii_uppercase() || c.is_ascii_digit() || c == '_') && !names.iter().any(|x| x == piece) {
+                                names.push(piece.to_string());
+                            }
+                        }
+                    }
+                    for pat in ["var(", "var_os(", "option_env!(", "vars().", "env!("] {
+                        let mut rest = text.as_str();
+                        while let Some(i) = rest.find(pat) {
+                            rest = &rest[i + pat.len()..];
+                            let t = rest.trim_start();
+                            if let Some(t) = t.strip_prefix('"') {
+                                if let Some(j) = t.find('"') {
+                                    let name = &t[..j];
+                                    if !name.is_empty() && name.len() < 80 && name.chars().all(|c| c.is_ascii_alphanumeric() || c == '_') && !names.iter().any(|x| x == name) {
+                                        names.push(name.to_string());
+                                    }
+                                }
+                            }
+                        }
+                    }
+                }
+            }
+        }
+        names.sort();
+        names
+    })
+}
+
 fn run_in_child(c: &SimCase, progress: bool, variant: u32) -> Result<Digest, String> {
     let exe = std::env::current_exe().map_err(|e| e.to_string())?;
     let cwd = if variant % 2 == 0 { std::path::PathBuf::from("/") } else { crate::engine::scratch_dir() };
@@ -252,6 +304,13 @@ fn run_in_child(c: &SimCase, progress: bool, variant: u32) -> Result<Digest, Str
     }
     if variant % 2 == 1 {
         cmd.env("TZ", "Pacific/Kiritimati").env("LANG", "tr_TR.UTF-8").env("RUST_BACKTRACE", "1").env("COLUMNS", "40");
+        cmd.env("RUST_LOG", "trace").env("NO_COLOR", "1").env("TERM", "dumb").env("RAYON_NUM_THREADS", "3").env("DEBUG", "1");
+        for name in env_vars_read_by_bourse() {
+            // (cargo's own compile-time variables are not run-time inputs)
+            if !name.starts_with("CARGO_") {
+                cmd.env(name, "1");
+            }
+        }
     }
     let mut ch = cmd.spawn().map_err(|e| e.to_string())?;
     {
